@@ -390,7 +390,7 @@ type watcher struct {
 	done     bool
 	sent     int
 	inSend   bool // parked in send: nobody is receiving right now
-	breakNow int // fault requested by the workload: 1 cancel, 2 cancel+compacted, 3 close
+	breakNow int  // fault requested by the workload: 1 cancel, 2 cancel+compacted, 3 close
 }
 
 func (w *watcher) kick() {
